@@ -19,7 +19,7 @@ def K(e):
 def c16_t1(ctx, f):
     rid = "C16.T1"
     ctx.rule(rid, "glyph table: (top, bottom) module values -> space / lower half / upper half / full block, one glyph per column")
-    fn = anchor_fn(ctx, rid, f, "helpers::print_line", ["&[module::Module]", "&[module::Module]", "usize"], "std::string::String")
+    fn = anchor_fn(ctx, rid, f, "helpers::print_line", ["&[module::Module]", "&[module::Module]", "usize"], "std::string::String", private=True)
     if not fn:
         return None
     # the (value(top[i]), value(bottom[i])) tuple
